@@ -12,6 +12,7 @@ CONSTANTS
   BadValues = FALSE
   ValuesPerOp = 1
   EditWhen = "copied"
+  Extras = 0
   Deviations = {}
 VIEW vw
 INVARIANT Mutual
